@@ -14,6 +14,7 @@ import (
 	"sync"
 
 	kv "github.com/XiXi-2024/xixi-kv"
+	"github.com/XiXi-2024/xixi-kv/vhook"
 	"verif/harness/core"
 )
 
@@ -28,13 +29,13 @@ func init() {
 func (c16) ID() string    { return "C16" }
 func (c16) Level() string { return "exploration" }
 func (c16) Rule() string {
-	return "cases of four kinds on one directory: (race) 2..8 child PROCESSES (the harness binary in opener mode) x 1..4 goroutines each perform 50..400 Open attempts in total, also racing on a directory that does not exist yet; every successful opener immediately creates a token file with O_CREAT|O_EXCL in a side directory, writes a few uniquely named keys, removes the token and closes: a failing O_EXCL is an exact, clock-free witness that two holders overlapped; every rejected Open must return ErrDatabaseIsUsing; at the end all acknowledged keys must be readable; (fingerprint) while one holder sits idle, bursts of Open attempts from other processes and goroutines must all be rejected and must leave names, sizes, modes, mtimes and SHA-256 of every file of the directory unchanged; (release) Opens made to fail after the lock was taken (non-numeric *.data name, corrupt first chunk, data file replaced by a directory) must leave the directory openable - from the same process and from a child - once the cause is removed; (stale) Close on an already closed handle while another holder has the directory open must not let a third opener in. Non-trivial: race case with >=2 processes, >=1 rejected and >=2 successful Opens; distinct = hash of the case parameters and outcome counts"
+	return "cases of four kinds on one directory: (race) 2..8 child PROCESSES (the harness binary in opener mode) x 1..4 goroutines each perform 50..400 Open attempts in total, also racing on a directory that does not exist yet; every successful opener immediately creates a token file with O_CREAT|O_EXCL in a side directory, writes a few uniquely named keys, removes the token and closes: a failing O_EXCL is an exact, clock-free witness that two holders overlapped; every rejected Open must return ErrDatabaseIsUsing; at the end all acknowledged keys must be readable; (fingerprint) while one holder sits idle, bursts of Open attempts from other processes and goroutines must all be rejected and must leave names, sizes, modes, mtimes and SHA-256 of every file of the directory unchanged; (release) Opens made to fail after the lock was taken (non-numeric *.data name, corrupt first chunk, data file replaced by a directory) must leave the directory openable - from the same process and from a child - once the cause is removed; (closing) at every file-level close event inside Close, observed through the hooks, an Open of the same directory must still be rejected (the holder lets go of the lock last), for both I/O types; (stale) Close on an already closed handle while another holder has the directory open must not let a third opener in. Non-trivial: race case with >=2 processes, >=1 rejected and >=2 successful Opens; distinct = hash of the case parameters and outcome counts"
 }
 func (c16) Assumptions() []string {
 	return []string{"flock semantics of the host kernel", "child processes are real OS processes started from the harness binary"}
 }
 func (c16) Required() []string {
-	return []string{"open_attempts", "open_successes", "open_rejections", "token_checks", "fingerprint_bursts", "release_checks", "stale_close_checks", "child_processes"}
+	return []string{"open_attempts", "open_successes", "open_rejections", "token_checks", "fingerprint_bursts", "release_checks", "stale_close_checks", "child_processes", "opens_during_close"}
 }
 
 type c16Case struct {
@@ -52,7 +53,7 @@ func (c16) Cases(tier string, seed uint64) []core.Case {
 		n = 6000
 	}
 	r := core.NewRng(core.Mix(seed, 0xC16))
-	kinds := []string{"race", "race", "fingerprint", "release", "race", "stale"}
+	kinds := []string{"race", "race", "fingerprint", "release", "race", "stale", "closing"}
 	var out []core.Case
 	for i := 0; i < n; i++ {
 		out = append(out, core.Case{Index: i, ID: fmt.Sprintf("c16-%04d", i), Seed: r.U64(),
@@ -423,6 +424,50 @@ func (c16) Run(c core.Case, w *core.Worker) core.Result {
 			res.SetAdd("failed_open_causes", cause+": "+ferr.Error())
 		}
 		res.Nontrivial = true
+	case "closing":
+		// Close is still a holder until it has let go of every file: at every file-level close
+		// event inside Close (hook), an Open of the same directory must still be rejected
+		ccfg := cfg
+		ccfg.FileIO = byte(c.Index % 2)
+		ccfg.DataFileSize = 4 << 10
+		db, err := kv.Open(ccfg.Options(dir))
+		if err != nil {
+			fail("open", err.Error())
+			return res
+		}
+		for i := 0; i < 60; i++ {
+			db.Put([]byte(fmt.Sprintf("k%d", i)), core.FillValue(uint64(i+1), 700))
+		}
+		h := &closingProbe{dir: dir, cfg: ccfg}
+		old := vhook.Set(h)
+		cerr := db.Close()
+		vhook.Set(old)
+		res.Add("open_attempts", int64(h.attempts))
+		res.Add("open_rejections", int64(h.rejected))
+		res.Add("opens_during_close", int64(h.attempts))
+		if cerr != nil {
+			fail("close", "Close failed: "+cerr.Error())
+		}
+		if h.succeeded > 0 {
+			fail("two-holders", fmt.Sprintf("%d of %d Open attempts made while Close was still closing the data files succeeded (first at %s): the lock was released before the holder had let go of the directory", h.succeeded, h.attempts, h.firstAt))
+		}
+		if h.other != "" {
+			fail("reject-error", "Open during Close returned "+h.other)
+		}
+		d2, err := kv.Open(ccfg.Options(dir))
+		if err != nil {
+			fail("reopen", "the directory cannot be opened after Close: "+err.Error())
+		} else {
+			for i := 0; i < 60; i++ {
+				if v, err := d2.Get([]byte(fmt.Sprintf("k%d", i))); err != nil || len(v) != 700 {
+					fail("lost-write", fmt.Sprintf("key k%d not readable after Close/Open: %v", i, err))
+					break
+				}
+			}
+			d2.Close()
+		}
+		res.Add("closing_checks", 1)
+		res.Nontrivial = h.attempts > 3
 	case "stale":
 		a, err := kv.Open(cfg.Options(dir))
 		if err != nil {
@@ -465,4 +510,40 @@ func (c16) Run(c core.Case, w *core.Worker) core.Result {
 		res.Sample = map[string]any{"case": cc, "attempts": res.Counters["open_attempts"], "successes": res.Counters["open_successes"], "rejections": res.Counters["open_rejections"]}
 	}
 	return res
+}
+
+// closingProbe tries to open the directory at every file-level close event of a running Close.
+type closingProbe struct {
+	dir       string
+	cfg       core.Config
+	busy      bool
+	attempts  int
+	rejected  int
+	succeeded int
+	other     string
+	firstAt   string
+}
+
+func (p *closingProbe) FS(kind, a, b string) {}
+func (p *closingProbe) Point(name string)    {}
+func (p *closingProbe) IO(kind, path string, off int64, n int, buf []byte) {
+	if p.busy || kind != "close" || filepath.Dir(path) != p.dir || p.attempts >= 12 {
+		return
+	}
+	p.busy = true
+	defer func() { p.busy = false }()
+	p.attempts++
+	db, err := kv.Open(p.cfg.Options(p.dir))
+	switch {
+	case err == nil:
+		p.succeeded++
+		if p.firstAt == "" {
+			p.firstAt = "close of " + filepath.Base(path)
+		}
+		db.Close()
+	case errors.Is(err, kv.ErrDatabaseIsUsing):
+		p.rejected++
+	default:
+		p.other = err.Error()
+	}
 }
